@@ -19,7 +19,9 @@ import sys, signal, hashlib, logging, collections
 _STDERR = sys.stderr if sys.stderr is not None else sys.__stderr__
 
 WALL_BACKSTOP_S = 5.0     # SIGALRM backstop per call (only ever reached by a genuinely non-terminating call)
-WORK_BUDGET     = 1024    # SoCRegion constructions allowed inside ONE API call (alloc_region builds one per candidate)
+WORK_BUDGET     = dict(quick=300, thorough=1100)   # SoCRegion constructions allowed inside ONE API call (alloc_region
+#                   builds one per candidate origin).  Measured: a 512-step walk (4-byte region behind a 2 KiB one) costs 1.3 ms
+#                   and is replayed in every extension of its history; 300 halves the cost of the heaviest configurations.
 
 
 class MachineryError(Exception):
@@ -36,8 +38,12 @@ class CallBudget(BaseException):
 
 class _Budget:
     count = 0
-    limit = WORK_BUDGET
+    limit = WORK_BUDGET["thorough"]
     armed = False
+
+
+def set_budget(tier):
+    _Budget.limit = WORK_BUDGET.get(tier, WORK_BUDGET["thorough"])
 
 
 def _on_alarm(signum, frame):
